@@ -40,7 +40,7 @@ def run_cases(binary, cases, tag):
 def name(c):
     return "v%d/honest-%s/%s/%s/cred-%s/dev-%s%s%s" % (
         c["ver"], c["honest"], c["auth"], ("verify" if c["verifyChain"] else "skipverify") if c["honest"] == "c" else "policy%d" % c["policy"],
-        c["cred"], c["dev"], "/" + c["suite"] if c.get("suite") else "", "/rsa" if c.get("keyType") else "") + ("/name-" + c["nameKind"] if c.get("nameKind") else "") + ("/cert+psk-server" if c.get("mixedPSK") else "")
+        c["cred"], c["dev"], "/" + c["suite"] if c.get("suite") else "", "/rsa" if c.get("keyType") else "") + ("/name-" + c["nameKind"] if c.get("nameKind") else "") + ("/cert+psk-server" if c.get("mixedPSK") else "") + ("/callback" if c.get("callback") else "") + ("/server-insecureskipverify" if c.get("srvInsecure") else "")
 
 
 def facts(c):
@@ -50,6 +50,9 @@ def facts(c):
         f["nameKind"] = c["nameKind"]
     if c.get("mixedPSK"):
         f["mixedPSK"] = True
+    for k in ("callback", "srvInsecure"):
+        if c.get(k):
+            f[k] = True
     return f
 
 
@@ -108,6 +111,14 @@ def run(chk):
     for c in cases:
         if c["honest"] == "s" and c["auth"] == "cert" and c["ver"] == 12 and not c.get("suite"):
             extra.append(dict(c, mixedPSK=True))
+    # configuration corners of the honest side: a VerifyPeerCertificate callback that accepts everything is installed on top
+    # of the library's verification; a server whose (shared) option list carries InsecureSkipVerify(true)
+    for c in cases:
+        if c["auth"] == "cert" and not c.get("suite") and c["dev"] in ("none", "emptyCert", "corruptProof"):
+            if (c["honest"] == "c" and c["verifyChain"]) or (c["honest"] == "s" and c["policy"] >= 2):
+                extra.append(dict(c, callback=True))
+            if c["honest"] == "s" and c["policy"] >= 2:
+                extra.append(dict(c, srvInsecure=True))
     # rsa rogue keys only make sense for the control and chain-level deviations
     allc = cases + [e for e in extra if not (e.get("keyType") == "rsa" and e["cred"] != "good")]
     binary = vlib.build("root")
